@@ -1127,6 +1127,9 @@ pub fn script_ops_ex(idx: u64, seed: u64, mode: ScriptMode, elide: bool) -> (Vec
             build.push(Op::Store(g1, hslots));
             hslots += 1;
             build.push(Op::Drop(pg1));
+            if rng.chance(1, 2) {
+                build.push(Op::Shallow(g0));
+            }
             // Z holds an adopted handle to ZZ, and a second program handle to Z exists
             build.push(Op::Clone(HRef::P(pzz)));
             build.push(Op::Adopt(HRef::P(pz), HRef::P(hslots)));
@@ -1154,7 +1157,10 @@ pub fn script_ops_ex(idx: u64, seed: u64, mode: ScriptMode, elide: bool) -> (Vec
                 let k = rng.below(3);
                 for _ in 0..k {
                     let when = if rng.chance(1, 2) { When::Pre } else { When::Post };
-                    let acts: Vec<Op> = match rng.below(14) {
+                    let acts: Vec<Op> = match rng.below(15) {
+                        // copy-on-write through the last outside handle of the other group: the old
+                        // handle is given up inside make_mut (nested collection when g0 clones shallowly)
+                        14 => vec![Op::MakeMut(pg0)],
                         0 => vec![Op::New, Op::Store(z, crate::ops::rel(0))],
                         1 => vec![Op::Clone(HRef::P(pz))],
                         2 => vec![Op::Drop(pg0)], // last outside handle of the other group: nested collection
